@@ -131,7 +131,7 @@ def main(tier: str, seed: int) -> int:
              "values, all non-trivial (every one is compared with integer arithmetic)")
     chk.assumptions = ["oracle = python integer arithmetic on datetime/timedelta",
                        "for non-microsecond inputs floor or round are both accepted"]
-    results, notes = core.run_workers("checks.c16", "run_chunk", build_cases(tier, seed))
+    results, notes = core.run_workers("checks.c16", "run_chunk", build_cases(tier, seed), case_wall=5000, timeout=6000)
     for n in notes:
         chk.note_inconclusive(n)
     distinct = 0
